@@ -63,6 +63,24 @@ class Gen:
         dt = d["dt"]
         lo, hi = self.signed_range(d)
         toks = []
+        if mode == "corr":
+            # correlated fields: every field carries +v or -v (v a number of grid steps), the sign taken from a pattern
+            # that singles out one field at a time; relations such as a + b == 0, a == -b, a == b between DIFFERENT fields
+            k, signs = self._corr
+            sg = signs[self._corr_i % len(signs)]
+            self._corr_i += 1
+            kk = max(lo, min(hi, sg * k))
+            if d["inv"] is not None:
+                toks.append("S")
+            if dt in ("f32", "f64"):
+                res = float(eval_expr(d["res"])) if d["res"] else 1.0
+                bias = float(eval_expr(d["bias"])) if d["bias"] else 0.0
+                toks.append("f%x" % fbits(dt, kk * res + bias))
+            else:
+                res_i = int(eval_expr(d["res"])) if d["res"] else 1
+                bias_i = int(eval_expr(d["bias"])) if d["bias"] else 0
+                toks.append("i%d" % (kk * res_i + bias_i))
+            return toks
         if d["inv"] is not None:
             if r.random() < 0.15:
                 return ["N"]
@@ -459,6 +477,11 @@ class Gen:
     # ------------------------------------------------------------------ whole messages
     def message(self, r, number, mode="valid", lens=None):
         return "%d %s" % (number, " ".join(self.frag(r, self.mod_of[number], mode, lens)))
+
+    def correlated(self, r, number, k, signs, lens=1):
+        """message whose numeric fields all carry +-k grid steps with the given sign pattern (cyclic)"""
+        self._corr, self._corr_i = (k, signs), 0
+        return self.message(r, number, "corr", lens)
 
     # ------------------------------------------------------------------ static sizes (bits)
     def frag_bits(self, fid, n_for_lists):
